@@ -41,6 +41,13 @@ func fixedCases() []Case {
 		// respBlocks: a block range that ends at 2^32-1
 		msg("fixed-get-blocks-to-max-height", 0x07, nL(nU(fxCur), nU(1<<32-1))),
 		msg("fixed-get-blocks-with-logs-to-max-height", 0x0e, nL(nU(1), nU(1<<32-1))),
+		// GetCorrectMiner panics on instants before 1e10 ms: a block signed by a deputy with time 0 / 1970
+		{S: "d", Kind: "fixed-deputy-signed-block-time-zero", Lazy: "next-block-time-zero-resigned"},
+		{S: "d", Kind: "fixed-deputy-signed-block-time-1970", Lazy: "next-block-time-1970-resigned"},
+		// unmarshalAndVerifyData: json.Unmarshal("null", &pointer) leaves a nil pointer; reached on the miner path
+		{S: "d", Kind: "fixed-modify-signers-data-null", Lazy: "modify-signers-data-null-resigned"},
+		// checkBoxTx again, through the chain entry point
+		{S: "d", Kind: "fixed-box-with-null-sub-tx", Obj: &Obj{What: "tx", Payload: &Payload{Tree: boxTxTreeAt(`{"subTxList":[null]}`, 1700000600)}}},
 	}
 }
 
@@ -50,4 +57,11 @@ func boxTxTree(doc string) *Node {
 	exp := int64(600)
 	return nL(nU(10), nU(1), nU(200), &Node{Rnd: 20, Seed: 1}, &Node{}, &Node{}, &Node{}, nU(1000000000), nU(3000000), &Node{}, &Node{},
 		nB([]byte(doc)), &Node{NowPlus: &exp}, &Node{}, nL(), nL())
+}
+
+// boxTxTreeAt is boxTxTree with a fixed expiration (chain time of the fixture).
+func boxTxTreeAt(doc string, exp uint64) *Node {
+	t := boxTxTree(doc)
+	t.L[12] = nU(exp)
+	return t
 }
